@@ -79,6 +79,8 @@ class SimRawIO(io.RawIOBase):
     def __init__(self, fs, path, real_fd, append, readable=False):
         super().__init__()
         self.fs = fs
+        fs.next_fid += 1
+        self.fid = fs.next_fid          # identity of the open file (survives renames)
         self.path = path
         self.fd = real_fd
         self.append = append
@@ -150,6 +152,7 @@ class SimFS:
         self.pid_of = pid_of or (lambda: 1)
         self.dead_pids = set()
         self.nops = 0
+        self.next_fid = 0
         self.reads = 0
         self.op_log = []              # (index, pid, kind, relpath) for traces
 
@@ -254,8 +257,8 @@ class SimFS:
             fd = _orig['os_open'](path, flags, 0o666)
         finally:
             _AUTH[0] -= 1
-        self.journal.append((kind, self.rel(path)))
         raw = SimRawIO(self, path, fd, append='a' in mode, readable=plus)
+        self.journal.append((kind, self.rel(path), raw.fid))
         if buffering == 0:
             if not binary:
                 raise ValueError("can't have unbuffered text I/O")
@@ -279,7 +282,7 @@ class SimFS:
             if act is not None and act[0] == 'torn':
                 n = act[1]
                 os.write(raw.fd, data[:n])
-                self.journal.append(('write', self.rel(raw.path), off, data[:n]))
+                self.journal.append(('write', self.rel(raw.path), off, data[:n], raw.fid))
                 self._count('fault.torn_write')
                 pid = self.pid_of()
                 _AUTH[0] -= 1
@@ -293,7 +296,7 @@ class SimFS:
             n = os.write(raw.fd, data)
         finally:
             _AUTH[0] -= 1
-        self.journal.append(('write', self.rel(raw.path), off, data[:n]))
+        self.journal.append(('write', self.rel(raw.path), off, data[:n], raw.fid))
         return n
 
     def op_truncate_fd(self, raw, size):
@@ -303,7 +306,7 @@ class SimFS:
             os.ftruncate(raw.fd, size)
         finally:
             _AUTH[0] -= 1
-        self.journal.append(('truncate', self.rel(raw.path), size))
+        self.journal.append(('truncate', self.rel(raw.path), size, raw.fid))
 
     def _simple(self, name, kind, jargs, path, *args, **kw):
         self._before(kind, path)
@@ -453,8 +456,19 @@ def wipe(root):
             shutil.rmtree(p)
 
 
-def apply_op(root, op):
+def apply_op(root, op, fids=None):
+    """Apply one journalled operation.  `fids` maps the identity of files opened for
+    writing to their *current* relative path (None once unlinked), so that a write
+    issued after a rename lands in the renamed file, as it does on a real file system."""
     kind = op[0]
+    if fids is None:
+        fids = {}
+
+    def retarget(old, new):
+        for f, p_ in fids.items():
+            if p_ == old:
+                fids[f] = new
+
     if kind == 'mkdir':
         _orig['mkdir'](os.path.join(root, op[1]))
     elif kind in ('creat', 'creat.x', 'creat.w', 'open.a', 'open.r+'):
@@ -464,8 +478,15 @@ def apply_op(root, op):
                  'open.a': os.O_CREAT | os.O_WRONLY, 'open.r+': os.O_RDWR}[kind]
         fd = _orig['os_open'](p, flags, 0o666)
         os.close(fd)
+        if len(op) > 2 and isinstance(op[2], int):
+            fids[op[2]] = op[1]
     elif kind == 'write':
-        p = os.path.join(root, op[1])
+        rel = op[1]
+        if len(op) > 4 and op[4] in fids:
+            rel = fids[op[4]]
+        if rel is None:
+            return          # the file was unlinked: the data goes nowhere
+        p = os.path.join(root, rel)
         fd = _orig['os_open'](p, os.O_WRONLY)
         try:
             os.lseek(fd, op[2], 0)
@@ -473,11 +494,18 @@ def apply_op(root, op):
         finally:
             os.close(fd)
     elif kind == 'truncate':
-        _orig['truncate'](os.path.join(root, op[1]), op[2])
+        rel = op[1]
+        if len(op) > 3 and op[3] in fids:
+            rel = fids[op[3]]
+        if rel is not None:
+            _orig['truncate'](os.path.join(root, rel), op[2])
     elif kind == 'unlink':
         _orig['unlink'](os.path.join(root, op[1]))
+        retarget(op[1], None)
     elif kind == 'rename':
+        retarget(op[2], None)            # an open file that is replaced loses its name
         _orig['replace'](os.path.join(root, op[1]), os.path.join(root, op[2]))
+        retarget(op[1], op[2])
     elif kind == 'symlink':
         _orig['symlink'](op[1], os.path.join(root, op[2]))
     elif kind == 'rmdir':
@@ -490,12 +518,13 @@ def replay_prefix(root, journal, k, torn=None):
     """Rebuild `root` as it is after the first k journal operations; with torn=n the
     k-th operation (a write) is applied with only its first n bytes."""
     wipe(root)
+    fids = {}
     for op in journal[:k]:
-        apply_op(root, op)
+        apply_op(root, op, fids)
     if torn is not None:
         op = journal[k]
         assert op[0] == 'write'
-        apply_op(root, ('write', op[1], op[2], op[3][:torn]))
+        apply_op(root, ('write', op[1], op[2], op[3][:torn]) + tuple(op[4:]), fids)
 
 
 def tree_digest(root):
